@@ -43,6 +43,10 @@ _RX = [
 ]
 
 
+_TRIV_EQ = re.compile(r"^bool cv::operator==<(\d+)ul?, (\d+)ul?>\(cv::Triv<.*> const&, cv::Triv<.*> const&\)$")
+_TRIV_LT = re.compile(r"^bool cv::operator< ?<(\d+)ul?, (\d+)ul?>\(cv::Triv<.*> const&, cv::Triv<.*> const&\)$")
+
+
 def classify(name):
     if name == "verif_raw_allocate":
         return {"kind": "ALLOC"}
@@ -72,6 +76,9 @@ def classify(name):
         if m:
             return {"kind": kind, "writes": writes, "objsize": VALUE_TYPES[m.group(1)], "type": m.group(1),
                     "nothrow": kind in ("DTOR",) or (kind in ("CTOR_MOVE", "ASSIGN_MOVE") and m.group(1) != "cv::ObjThrowMove")}
+    m = _TRIV_EQ.match(d) or _TRIV_LT.match(d)
+    if m:
+        return {"kind": "EQ" if _TRIV_EQ.match(d) else "LT", "writes": [], "objsize": int(m.group(1)), "type": "cv::Triv", "nothrow": False}
     if d.startswith("std::__throw_") or d.startswith("std::terminate"):
         return {"kind": "THROW" if "throw" in d else "TERMINATE"}
     return {"kind": "CALL", "demangled": d}
